@@ -73,7 +73,25 @@ def h_pow(ctx, chain):
         ctx.check(ctx.not_(want), 'rejected => reference rejects')
 
 
-HARNESSES = {'decode': h_decode, 'encode': h_encode, 'encode_small': h_encode_small, 'pow': h_pow}
+def h_pow_history(ctx, chain_a, chain_b, c_fixed=None):
+    """the same compact target checked under chain A and then, in the same process, under chain B
+    (c symbolic, or one of the chains' limit encodings with only the hash symbolic)"""
+    core = ctx.core
+    c = ctx.int('c', 0, 0xffffffff) if c_fixed is None else c_fixed
+    limits = {'mainnet': (1 << 224) - 1, 'testnet': (1 << 224) - 1, 'signet': (1 << 224) - 1, 'regtest': (1 << 255) - 1}
+    for k, chain in enumerate((chain_a, chain_b, chain_a)):
+        ctx.select_chain(chain)
+        h = ctx.bytes('h%d' % k, 32)
+        want = R.pow_ok(ctx, limits[chain], R.int_from_le(h), c)
+        try:
+            core.CheckProofOfWork(h, c)
+            ctx.check(want, 'accepted => reference accepts', detail='step %d under %s' % (k, chain))
+        except core.CheckProofOfWorkError:
+            ctx.check(ctx.not_(want), 'rejected => reference rejects', detail='step %d under %s' % (k, chain))
+    ctx.select_chain('mainnet')
+
+
+HARNESSES = {'pow_history': h_pow_history, 'decode': h_decode, 'encode': h_encode, 'encode_small': h_encode_small, 'pow': h_pow}
 EXPECTED_LABELS = ['decode==mantissa*256^(e-3)', 'accepted => reference accepts', 'rejected => reference rejects',
                    'encode(decode(c)) == c for canonical c']
 
@@ -87,4 +105,8 @@ def instances(tier):
     out.append(dict(h='encode_small'))
     for ch in CHAINS:
         out.append(dict(h='pow', p=dict(chain=ch)))
+    for a, b in (('regtest', 'mainnet'), ('mainnet', 'regtest'), ('regtest', 'signet')):
+        out.append(dict(h='pow_history', p=dict(chain_a=a, chain_b=b)))
+        for cf in (0x207fffff, 0x1d00ffff, 0x2000ffff):
+            out.append(dict(h='pow_history', p=dict(chain_a=a, chain_b=b, c_fixed=cf)))
     return out
